@@ -727,7 +727,7 @@ def _c02_cfg(tier):
     if tier == "quick":
         return dict(n=(2000, 120000, 10, "c02-n"), n_mined=(2000, 50000, 3),
                     p=(7, 3000, 10, "c02-p", 6), pn=(100, 800),
-                    prod=(1e5, 3e7, 10, "c02-prod"), prod_p=(8, 3000), prod_n=(400, 100000), sub_budget=1.0e5)
+                    prod=(1e5, 3e7, 10, "c02-prod"), prod_p=(8, 3000), prod_n=(400, 60000), sub_budget=1.0e5)
     return dict(n=(2000, 600000, 22, "c02-n-th"), n_mined=(2000, 200000, 10),
                 p=(7, 6000, 24, "c02-p-th", 16), pn=(100, 2000),
                 prod=(1e5, 4e7, 20, "c02-prod-th"), prod_p=(8, 6000), prod_n=(400, 300000), sub_budget=4e5)
@@ -958,7 +958,7 @@ def _c02_prod_enum(tier, shard, nshards):
 
 @enum_clause(CLAUSES, "mid-range-products", _c02_prod_enum,
              rule="(periods x samples) ladder: one product per logarithmic bin of [1e5, 3e7] (10 bins; thorough [1e5, 4e7], 20 bins) and products "
-                  "just above integer literals of the source under test, split by hash into 8..3000 (6000) periods x 400..100 000 (300 000) "
+                  "just above integer literals of the source under test, split by hash into 8..3000 (6000) periods x 400..60 000 (300 000) "
                   "samples; leading 0 in half of the cases; the whole list (series, pseudo and true spectra) against sub-lists of <= 48 periods: "
                   "every row when about 1e5 (4e5) loop steps pay for it, otherwise the seam rows (first, last, around multiples of 2^5..2^12) "
                   "and hash-chosen rows, always one single-period call; non-trivial = non-zero record",
